@@ -213,9 +213,14 @@ def explore(fn, params, cpu_budget=60.0, per_path_timeout=10.0, active_kf=(),
                         res['disagreements'].append(dict(values=values, symbolic=[kind, detail],
                                                          concrete=[ckind, cdetail]))
                         status = VerificationStatus.UNKNOWN
-                        if kind == 'fail' or ckind == 'fail':
-                            # symbolic-only or concrete-only failure: never a
-                            # violation by itself; job cannot be confirmed
+                        if ckind == 'fail' and kind == 'pass':
+                            # the solver's model, run on the real code in the plain interpreter, breaks the property
+                            # although the traced run did not (e.g. set iteration order differs under tracing): the
+                            # concrete run is the authority - hand it on as a counterexample; the pool replays it in a
+                            # fresh interpreter before anything is reported
+                            kind, detail = 'fail', '%s [concrete run of the model; the traced run passed]' % (cdetail,)
+                        elif kind == 'fail' or ckind == 'fail':
+                            # symbolic-only failure: never a violation by itself; job cannot be confirmed
                             kind = 'disagree'
                 if kind == 'pass':
                     res['passed'] += 1
